@@ -43,11 +43,11 @@ REQUIRED_MONITORS = ["inputs-intact", "writes-confined", "outputs-right", "isola
 
 KINDS = ["v10-xml", "v10-json", "v10-yaml", "v11-xml", "v11-json", "v11-yaml", "empty", "text", "malformed-xml",
          "other-vocabulary", "v10-unnamed-section", "empty-json", "text-json", "empty-yaml", "text-yaml", "yaml-not-odml",
-         "v10-xml-latin1", "v10-xml-utf16"]
+         "v10-xml-latin1", "v10-xml-utf16", "malformed-xml-v11"]
 EXT = {"v10-xml": ".xml", "v10-json": ".json", "v10-yaml": ".yaml", "v11-xml": ".xml", "v11-json": ".json",
        "v11-yaml": ".yaml", "empty": ".xml", "text": ".xml", "malformed-xml": ".odml", "other-vocabulary": ".xml",
        "v10-unnamed-section": ".xml", "empty-json": ".json", "text-json": ".json", "empty-yaml": ".yaml",
-       "text-yaml": ".yaml", "yaml-not-odml": ".yaml", "v10-xml-latin1": ".xml", "v10-xml-utf16": ".xml"}
+       "text-yaml": ".yaml", "yaml-not-odml": ".yaml", "v10-xml-latin1": ".xml", "v10-xml-utf16": ".xml", "malformed-xml-v11": ".xml"}
 FC_FORMATS = ["v1_1", "odml", "xml", "turtle", "nt", "n3", "json-ld", "pretty-xml", "ttl", "ntriples", "nt11", "trig"]
 
 
@@ -105,6 +105,10 @@ def make_file(rng, kind_, path):
         text = "just some notes, not markup\nsecond line\n"
     elif kind_ == "malformed-xml":
         text = '<?xml version="1.0"?>\n<odML version="1"><section><name>s</name><type>t</type></odML>\n'
+    elif kind_ == "malformed-xml-v11":
+        # damaged after an intact current-version beginning: nothing of it may be passed off as a conversion
+        text = ('<?xml version="1.0"?>\n<odML version="1.1"><section><name>s</name><type>t</type><property><name>p</name>'
+                '<value>1</value></property><section><name>cut</name></odML>\n')
     elif kind_ == "other-vocabulary":
         text = '<?xml version="1.0"?>\n<html><body><p>hello</p></body></html>\n'
     else:
